@@ -289,8 +289,10 @@ def gen_ray(rng, spec):
     targets = [("b", i) for i in range(len(spec["beams"]))] + ([("l", 0)] if spec.get("laser") else [])
     if targets and rng.random() < 0.5:
         kind, i = rng.choice(targets)
-        p = axis_point(spec, kind, i, rng.uniform(0.9, 1.9))
-        p = [c + rng.uniform(-0.03, 0.03) for c in p]
+        wide = rng.random() < 0.4        # also far down the axis and well off it: where a re-sized bounding volume differs from the old one
+        p = axis_point(spec, kind, i, rng.uniform(0.4, 2.8) if wide else rng.uniform(0.9, 1.9))
+        off = 0.25 if wide and rng.random() < 0.5 else 0.03
+        p = [c + rng.uniform(-off, off) for c in p]
     o = [round(pc - 3.0 * dc, 4) for pc, dc in zip(p, d)]
     lines = []
     for pl in spec["plasmas"]:
@@ -323,6 +325,13 @@ def apply_spec(sp, op):
         if op["name"] in sp["frames"]:
             sp["frames"][op["name"]] = op["t"]
         return
+    # free-standing attenuators die with the node objects they were built around
+    if k == "b.recreate" and sp["beams"]:
+        i = op["i"] % len(sp["beams"])
+        sp["free_atts"] = [f for f in sp.get("free_atts", []) if f["beam"] != i]
+    if k == "p.recreate":
+        i = op["i"] % len(sp["plasmas"])
+        sp["free_atts"] = [f for f in sp.get("free_atts", []) if f["plasma"] != i]
     if k.startswith("p."):
         ps = sp["plasmas"][op["i"] % len(sp["plasmas"])]
         if k == "p.bfield":
@@ -416,6 +425,15 @@ def apply_spec(sp, op):
                 # a laser built from scratch cannot take models while it has no spectrum (refused before they are stored):
                 # the re-created node therefore starts without models
                 ls["models"] = 0
+        return
+    if k.startswith("fa."):
+        fas = sp.setdefault("free_atts", [])
+        if k == "fa.make":
+            if sp["beams"] and len(fas) < 2:
+                i = op["i"] % len(sp["beams"])
+                fas.append({"beam": i, "plasma": sp["beams"][i]["plasma"], "provider": sp["beams"][i]["provider"], "att": dict(op["att"])})
+        elif fas:
+            fas[op["which"] % len(fas)]["att"]["step" if k == "fa.step" else "clamp_sigma"] = op["value"]
         return
     if not k.startswith("b.") or not sp["beams"]:
         return
@@ -604,6 +622,7 @@ class Scene:
         self.pfault_at = {}
         self.rider = None
         self.riders = {}
+        self.free_atts = []
 
 
 def build_scene(spec):
@@ -620,7 +639,16 @@ def build_scene(spec):
     for i, bs in enumerate(spec["beams"]):
         s.beams.append(build_beam(s, spec, i))
     s.laser = build_laser(s, spec) if spec.get("laser") else None
+    for fa in spec.get("free_atts", []):
+        s.free_atts.append(build_free_att(s, fa))
     return s
+
+
+def build_free_att(s, fa):
+    """An attenuator built with the documented constructor arguments and sampled directly (it is nobody's beam.attenuator)."""
+    a = fa["att"]
+    return SingleRayAttenuator(step=a["step"], clamp_to_zero=a["clamp_to_zero"], clamp_sigma=a["clamp_sigma"],
+                               beam=s.beams[fa["beam"]], plasma=s.plasmas[fa["plasma"]], atomic_data=s.providers[fa["provider"]])
 
 
 def parent_of(s, kind, i, where):
@@ -787,6 +815,30 @@ class SceneMachine(Machine):
                 if m:
                     apply_spec(gspec, m)
                 ops.append(m)
+                if m and (m["op"] in ("b.models.clear", "p.models.clear") or (m["op"] in ("b.models.set", "p.models.set") and not m["models"])) \
+                        and rng.random() < 0.7:
+                    # something changes while the emitter has no models, then models come back
+                    pre = m["op"][0]
+                    midk = (["b.set", "b.set", "b.set", "b.att.clamp_sigma", "b.attenuator", "b.integrator", "b.plasma", "b.atomic_data", "b.transform"]
+                            if pre == "b" else ["p.geometry", "p.geomtransform", "p.integrator", "p.atomic_data", "p.transform", "p.comp.set"])
+                    if rng.random() < 0.5:
+                        ops.append(self._gen_observe(rng, spec))
+                    mid = self._gen_mutator(rng, gspec, rng.choice(midk), nprov)
+                    back = None
+                    for _try in range(8):
+                        back = self._gen_mutator(rng, gspec, pre + ".models.set", nprov)
+                        if back and back["models"]:
+                            break
+                    for x in (mid, back):
+                        if x:
+                            x["i"] = m["i"]
+                            if x["op"] == "b.models.set":
+                                # (models generated for the right beam: element / composition of beam m["i"])
+                                bs_ = gspec["beams"][m["i"] % len(gspec["beams"])]
+                                x["models"] = [gen_beam_model(rng, gspec["plasmas"][bs_["plasma"]]["composition"], bs_["element"])
+                                               for _ in range(rng.randint(1, 3))]
+                            apply_spec(gspec, x)
+                            ops.append(x)
                 if m and m["op"] in ("p.unset", "l.unset") and rng.random() < 0.8:
                     # something happens while the prerequisite is missing, then it comes back
                     ops.append(self._gen_observe(rng, spec))
@@ -836,7 +888,7 @@ class SceneMachine(Machine):
         if spec["beams"]:
             k += ["b.set", "b.set", "b.element", "b.atomic_data", "b.plasma", "b.attenuator", "b.att.reassign", "b.att.step", "b.att.clamp_sigma",
                   "b.models.set", "b.models.add", "b.models.clear", "b.models.readd", "b.models.set.bad", "b.models.permute", "b.reassign", "b.caller.mutate", "b.model.line", "b.integrator", "b.transform", "b.parent",
-                  "b.recreate", "b.reject"]
+                  "b.recreate", "b.reject", "fa.make", "fa.step", "fa.step", "fa.clamp"]
         if spec.get("laser"):
             k += ["l.profile.set", "l.profile.set", "l.profile.polarize", "l.profile", "l.spectrum", "l.spectrum.set", "l.plasma",
                   "l.importance", "l.integrator", "l.models", "l.transform", "l.parent", "l.recreate", "l.reassign", "l.unset", "l.reject"]
@@ -915,6 +967,16 @@ class SceneMachine(Machine):
             names = sorted(spec["frames"])
             op["name"] = rng.choice(names)
             op["t"] = gen_transform(rng, 0.15)
+        elif kind == "fa.make":
+            if not nb:
+                return None
+            op["i"] = rng.randrange(nb)
+            op["att"] = gen_attenuator(rng)
+        elif kind in ("fa.step", "fa.clamp"):
+            if not spec.get("free_atts"):
+                return self._gen_mutator(rng, spec, "fa.make", nprov)
+            op["which"] = rng.randrange(2)
+            op["value"] = rng.choice([0.02, 0.04, 0.08, 0.15]) if kind == "fa.step" else rng.choice([1.5, 2.5, 4.0, 6.0])
         elif kind == "p.reject":
             op["attr"] = "integrator"
         elif kind == "hook.add":
@@ -1032,6 +1094,8 @@ class SceneMachine(Machine):
             chans += ["laser.materials", "ray"]
         if any(x.get("rider") for x in spec["plasmas"] + spec["beams"]):
             chans += ["riders", "riders"]
+        if spec["beams"]:
+            chans += ["fa.density"]
         ch = rng.choice(chans)
         return {"op": "observe", "channel": ch, "which": rng.randrange(6), "twice": rng.random() < 0.25}
 
@@ -1064,6 +1128,11 @@ class SceneMachine(Machine):
                 out.append(float(len(scene.laser.children)))
                 out.append(-1.0 if scene.rider is None else (1.0 if scene.rider.parent is scene.laser else 0.0))
                 return "ok", np.array(out, dtype=float)
+            if channel == "fa.density":
+                if not scene.free_atts:
+                    return "ok", np.zeros(0)
+                fa = scene.free_atts[which % len(scene.free_atts)]
+                return "ok", np.array([fa.density(*pt) for pt in ATT_POINTS], dtype=float)
             if channel == "riders":
                 # every user primitive parented to a plasma / beam node: still a child of its node, and seen by a ray aimed at it
                 out = []
@@ -1231,7 +1300,7 @@ class SceneMachine(Machine):
             apply_spec(c.spec, dict(op, op="b.set"))
         if out != "noop":
             self._touch(c)
-            for ch in ("ray", "plasma.fields", "beam.density", "beam.direction", "att.density", "laser.materials", "riders"):
+            for ch in ("ray", "plasma.fields", "beam.density", "beam.direction", "att.density", "laser.materials", "riders", "fa.density"):
                 lst = c.mut_since.setdefault(ch, [])
                 if k not in lst and len(lst) < 6:
                     lst.append(k)
@@ -1258,6 +1327,8 @@ class SceneMachine(Machine):
             self._compare(c, env, "laser.materials", 0, after)
         if any(x.get("rider") for x in c.spec["plasmas"] + c.spec["beams"]):
             self._compare(c, env, "riders", 0, after)
+        for which in range(len(c.spec.get("free_atts", []))):
+            self._compare(c, env, "fa.density", which, after)
         if c.mutated_after_obs:
             env.nontrivial = True
 
@@ -1274,6 +1345,25 @@ class SceneMachine(Machine):
         _CURRENT[0] = s
         if k == "hook.add":
             return self._add_hook(c, op, env)
+        if k.startswith("fa."):
+            fas = sp.get("free_atts", [])
+            if k == "fa.make":
+                if not s.beams or len(fas) >= 2:
+                    return "noop"
+                i = op["i"] % len(s.beams)
+                fa = {"beam": i, "plasma": sp["beams"][i]["plasma"], "provider": sp["beams"][i]["provider"], "att": dict(op["att"])}
+                s.free_atts.append(build_free_att(s, fa))
+                env.probe("free_attenuator_built")
+                return "ok"
+            if not fas:
+                return "noop"
+            fa = s.free_atts[op["which"] % len(fas)]
+            if k == "fa.step":
+                fa.step = op["value"]
+            else:
+                fa.clamp_sigma = op["value"]
+            env.probe("free_attenuator_changed")
+            return "ok"
         if k.startswith("p.") or k == "frame.transform":
             if k == "frame.transform":
                 if op["name"] not in s.frames:
@@ -1502,6 +1592,7 @@ class SceneMachine(Machine):
                 p.parent = parent_of(s, "p", i, op["to"])
             elif k == "p.recreate":
                 s.riders.pop(("p", i), None)
+                s.free_atts = [fa for fa, f in zip(s.free_atts, sp.get("free_atts", [])) if f["plasma"] != i]
                 old = p
                 old.parent = None
                 if op.get("drop_first") and not op.get("keep"):
@@ -1641,6 +1732,7 @@ class SceneMachine(Machine):
             b.parent = parent_of(s, "b", i, op["to"])
         elif k == "b.recreate":
             s.riders.pop(("b", i), None)
+            s.free_atts = [fa for fa, f in zip(s.free_atts, sp.get("free_atts", [])) if f["beam"] != i]
             old = b
             old.parent = None
             if op.get("drop_first") and not op.get("keep"):
